@@ -232,6 +232,7 @@ pub struct Sender {
     last: [(u32, u32); 7],
     /// per csid class: length of the previous message
     last_len: [Option<usize>; 7],
+    last_type: [Option<u8>; 7],
 }
 
 impl Sender {
@@ -246,6 +247,7 @@ impl Sender {
             },
             last: [(0, 0); 7],
             last_len: [None; 7],
+            last_type: [None; 7],
         }
     }
 
@@ -426,6 +428,20 @@ impl Sender {
                         len = pl.min((self.chunk.max(1) as usize).saturating_mul(70_000));
                     }
                 }
+                // coincidence between header fields: a length that makes (type id << s) + length
+                // equal to the previous message's on this chunk stream although both differ (an
+                // implementation that packs the two into one key compares them at once)
+                if let (Some(pl), Some(ptype)) = (self.last_len[cls], self.last_type[cls]) {
+                    if ptype != type_id && ctx.ch.chance("op.arg.packedlen", 1, 6) {
+                        let shift = if ctx.ch.chance("op.arg.packedshift", 1, 2) { 16 } else { 8 };
+                        let cand = pl as i64 + ((ptype as i64 - type_id as i64) << shift);
+                        let bound = (self.chunk.max(1) as i64).saturating_mul(70_000).min(16_777_215);
+                        if cand >= 0 && cand <= bound {
+                            len = cand as usize;
+                            ctx.probe("a.type_length_packed_coincidence");
+                        }
+                    }
+                }
                 let over = mode == AMode::C19 && ctx.ch.chance("op.arg.over", 1, 60);
                 if over {
                     len = 16_777_216 + ctx.ch.draw("op.arg.overn", 3) as usize;
@@ -504,6 +520,7 @@ impl Sender {
                         }
                         self.last[cls] = (ts, ts.wrapping_sub(pt));
                         self.last_len[cls] = Some(m.payload.len());
+                        self.last_type[cls] = Some(m.type_id);
                         if m.payload.is_empty() {
                             ctx.probe("a.zero_len_msg");
                         }
